@@ -14,7 +14,7 @@ GROUP = dict(
     extra_structs={E: 'struct @ { unsigned long size; char *pages[14]; };'},
     field_alias={(E, 'head'): '(*(struct LogEntry_PageTable **)&{obj}pages[13])'},
     type_aliases={'std::basic_streambuf<char>::char_type': 'char', 'std::basic_streambuf<char>::int_type': 'int'},
-    outside_methods={IOV: ['emplace_back'], 'std::basic_streambuf<char>': ['pptr', 'setp', 'sputc'], B: ['pptr', 'setp', 'sputc']},
+    outside_methods={IOV: ['emplace_back'], 'std::basic_streambuf<char>': ['pptr', 'setp', 'sputc', 'pbase', 'epptr', 'pbump'], B: ['pptr', 'setp', 'sputc', 'pbase', 'epptr', 'pbump']},
     roots=[E + '::append_to_iovec', E + '::pages_append_to_iovec', E + '::page_table_append_to_iovec',
            B + '::overflow', B + '::sync', B + '::overflow_page_table', B + '::begin', B + '::end'],
     reviewed_compiler_conditionals=[],
@@ -30,6 +30,12 @@ GROUP = dict(
         dict(id='C20.writer.bounded', harness='h_writer_bounded', unwind=19, backend='cadical', timeout=900, mem_gb=20,
              bounded='page_size 32 (3 entries per table), 1..18 data pages streamed: inline slots, head-slot boundary, first table opened and filled, second table opened; unwind 19',
              defines=['VF_PS 32UL', 'VF_WRITER_BOUNDED 1', 'VF_NPAGES 18', 'VF_MAXPG 24']),
+        dict(id='C20.reader.bounded64', harness='h_reader_bounded', unwind=46, backend='cadical', timeout=3000, tier='thorough', mem_gb=24,
+             bounded='page_size 64 (7 entries per table), size <= 2304 bytes = 36 data pages: inline slots, head-slot boundary, four tables; unwind 46',
+             defines=['VF_PS 64UL', 'VF_READER_BOUNDED 1', 'VF_MAXB 2304UL', 'VF_IOV_LOG 42']),
+        dict(id='C20.writer.bounded64', harness='h_writer_bounded', unwind=32, backend='cadical', timeout=3000, tier='thorough', mem_gb=24,
+             bounded='page_size 64 (7 entries per table), 1..30 data pages streamed; unwind 32',
+             defines=['VF_PS 64UL', 'VF_WRITER_BOUNDED 1', 'VF_NPAGES 30', 'VF_MAXPG 36']),
         dict(id='C20.overflow.ps4096', enforce='LogStreamBuffer_overflow', backend='cadical', timeout=1800, tier='thorough'),
     ],
 )
